@@ -17,7 +17,9 @@ Record case := {
   i_aborted : bool;                       (* an exception escaped Runner.run() *)
   i_summaries : list (nat * nat * nat * nat);   (* "Ran N tests with F failures, E errors and S skipped" lines, in order *)
   i_total : option (nat * nat * nat * nat);     (* the "Total:" line *)
-  i_injected : bool                             (* the harness made a layer subprocess die / fail to start / cut its report *)
+  i_injected : bool;                            (* the harness made a layer subprocess die / fail to start / cut its report *)
+  i_lfail : option (list name);                 (* the printed "Tests with failures:" listing (None: not verbose, nothing is listed) *)
+  i_lerr : option (list name)                   (* the printed "Tests with errors:" listing *)
 }.
 
 Definition hout_eqb (a b : hout) : bool :=
